@@ -29,6 +29,17 @@ def _mixed_magnitude(draw):
     ctx = [[{"y": float(sg), "u": -big * draw(st.sampled_from([1, -1]))}, float(draw(st.integers(0, 2)))]]
     if draw(st.booleans()):
         ctx.append([{"z": 1.0, "x": 1.0}, 5.0])
+    if draw(st.integers(0, 2)) == 0:
+        # the other way round: a context row whose second coefficient is below 1e-6 of the first, and a large coefficient on the
+        # eliminated variable in the term, so that the small part matters (any single tactic or the default order)
+        tiny = draw(st.sampled_from([8e-7, 2.0 ** -21, 5e-7]))
+        k = draw(st.sampled_from([5e4, 1e5, 2.5e5]))
+        refine = draw(st.booleans())
+        s1 = 1.0 if refine else -1.0
+        term = [{"x": 1.0, "y": k}, float(draw(st.integers(5, 12)))]
+        ctx = [[{"y": s1, "u": -s1 * tiny * draw(st.sampled_from([1, -1]))}, s1 * 1e-4]]
+        return {"terms": [term], "ctx": ctx, "elim": ["y"], "refine": refine, "simplify": draw(st.booleans()),
+                "order": draw(st.sampled_from([None, [1], [3], [4], [5]])), "shape": "mixed-magnitude"}
     return {"terms": [term], "ctx": ctx, "elim": ["y"], "refine": True, "simplify": False, "order": [4], "shape": "mixed-magnitude"}
 
 
